@@ -521,6 +521,35 @@ def _parse_tensordot_axes_to_matmul(axes, shape_a, shape_b):
     return _parse_eq_to_batch_matmul(eq, shape_a, shape_b)
 
 
+def _normalize_tensordot_axes(axes, ndim_a, ndim_b):
+    """Convert any ``axes`` specification accepted by ``numpy.tensordot`` - a
+    single integer, a pair of integers, or a pair of sequences of (possibly
+    negative) integers - into a hashable pair of tuples of non-negative ints.
+    """
+    try:
+        axes_a, axes_b = axes
+    except TypeError:
+        # a single integer: contract the last ``axes`` axes of ``a`` with
+        # the first ``axes`` axes of ``b``
+        axes = int(axes)
+        return tuple(range(ndim_a - axes, ndim_a)), tuple(range(axes))
+
+    try:
+        axes_a = tuple(map(int, axes_a))
+    except TypeError:
+        axes_a = (int(axes_a),)
+    try:
+        axes_b = tuple(map(int, axes_b))
+    except TypeError:
+        axes_b = (int(axes_b),)
+
+    # negative axes count from the end, as usual
+    axes_a = tuple(ax + ndim_a if ax < 0 else ax for ax in axes_a)
+    axes_b = tuple(ax + ndim_b if ax < 0 else ax for ax in axes_b)
+
+    return axes_a, axes_b
+
+
 def tensordot(a, b, axes=2, *, backend=None):
     """Perform a tensordot using only `matmul`, `transpose`, `reshape`. The
     logic for each is cached based on the equation and array shape, and each
@@ -543,11 +572,8 @@ def tensordot(a, b, axes=2, *, backend=None):
     -------
     array_like
     """
-    try:
-        # ensure hashable
-        axes = tuple(map(int, axes[0])), tuple(map(int, axes[1]))
-    except IndexError:
-        axes = int(axes)
+    # ensure hashable, and handle all the forms ``numpy.tensordot`` accepts
+    axes = _normalize_tensordot_axes(axes, len(shape(a)), len(shape(b)))
 
     (
         eq_a,
